@@ -33,9 +33,10 @@ CHECK_DEADLOCK FALSE
 """
 PATHS = ("n1.ipynb", "d/n2.ipynb", "d/e/n3.ipynb", "d/t.txt", "m.ipynb", "d/m2.ipynb")
 CWDS = ("", "d", "d/e")
-FILTERS = {"": [None, ["d"], ["n1.ipynb"], ["d/n2.ipynb", "m.ipynb"], ["d/e"]],
-           "d": [None, ["n2.ipynb"], ["e"], ["m2.ipynb", "t.txt"]],
-           "d/e": [None, ["n3.ipynb"]]}
+# ABS:<path>: the filter is given as an absolute path (inside the repository)
+FILTERS = {"": [None, ["d"], ["n1.ipynb"], ["d/n2.ipynb", "m.ipynb"], ["d/e"], ["ABS:m.ipynb"]],
+           "d": [None, ["n2.ipynb"], ["e"], ["m2.ipynb", "t.txt"], ["ABS:d/n2.ipynb"], ["ABS:d"]],
+           "d/e": [None, ["n3.ipynb"], ["ABS:d/e/n3.ipynb"]]}
 
 
 def content(p, c):
@@ -253,13 +254,16 @@ def replay(task):
     repo = Repo(d)
     events, problems = [], []
     def one(a, b, cwd, flt, tag):
+        label = flt
+        if flt:
+            flt = [os.path.join(os.path.realpath(repo.root), f[4:]) if f.startswith("ABS:") else f for f in flt]
         rep = repo.report(a, b, cwd, flt)
         yielded, cwds, raised = query(repo, a, b, cwd, flt)
-        ev = {"tid": "r%d%s-%s-%s-%s-%s" % (k, tag, a, b, cwd or "root", "+".join(flt) if flt else "all"),
+        ev = {"tid": "r%d%s-%s-%s-%s-%s" % (k, tag, a, b, cwd or "root", "+".join(label) if label else "all"),
               "report": [{"apath": enc_text(e["apath"]), "bpath": enc_text(e["bpath"]), "ac": e["ac"], "bc": e["bc"]}
                          for e in rep],
               "yielded": yielded, "cwd0": enc_text(cwd), "cwds": [enc_text(c) for c in cwds],
-              "_info": {"hist": h["hist"], "a": a, "b": b, "cwd": cwd, "filter": flt, "at": tag or "end",
+              "_info": {"hist": h["hist"], "a": a, "b": b, "cwd": cwd, "filter": label, "at": tag or "end",
                         "report": [[e["status"], e["apath"], e["bpath"], e["ac"], e["bc"]] for e in rep],
                         "cwds": cwds}}
         if raised:
@@ -272,6 +276,9 @@ def replay(task):
             if place is not None:
                 ev["outwhere"] = enc_text(place)
                 ev["_info"]["output_written_in"] = place
+            elif any(e["ac"] != e["bc"] for e in rep if e["apath"].endswith(".ipynb") or e["bpath"].endswith(".ipynb")):
+                ev["outwhere"] = enc_text("<no output written>")       # git reports a changed notebook, the command diffed none
+                ev["_info"]["output_written_in"] = None
         events.append(ev)
     try:
         ncommits = 1
@@ -283,6 +290,10 @@ def replay(task):
                 # the same process asks again while the repository evolves: symbolic refs and the index move
                 for (x, y) in [("HEAD", "INDEX"), ("INDEX", "WT")] + ([("HEAD~1", "HEAD")] if ncommits >= 2 else []):
                     one(x, y, "", None, "s%d" % j)
+                if ncommits < 2:
+                    # the command line is asked about a revision that does not exist YET (it then takes the word for a
+                    # path); once the history has grown the same words name a revision
+                    cli_output_place(repo, "HEAD~1", "HEAD", "", "early-%d.json" % j)
         # the model of git must agree with git
         real = {"wt": repo.tree("wt"), "idx": repo.tree("idx"), "HEAD": repo.tree("HEAD")}
         model = {"wt": h["wt"], "idx": h["idx"], "HEAD": h["commits"][-1]}
